@@ -582,6 +582,11 @@ def heap_keys_of_modifies(ex, st, targets, cx):
             ft = ex.field_type(cname, fname)
             out[ex.fkey(fname, ft)] = None
             continue
+        if t.startswith('all-lists:'):
+            lty = ex.tenv.parse(t[len('all-lists:'):])
+            out[ex.lkey_of(lty)] = None
+            out[ex.lenkey_of(lty)] = None
+            continue
         if t.startswith('heap:'):
             out[t[5:]] = None
             continue
